@@ -245,6 +245,11 @@ func unmarshalFloat(data []byte, bitSize int) (protoreflect.Value, error) {
 
 func quote(raw []byte) []byte {
 	if len(raw) < 2 || raw[0] != '"' || raw[len(raw)-1] != '"' {
+		// The result is parsed as JSON, and Go's quoting is not JSON's (it
+		// writes control characters as \x00, which JSON does not know).
+		if quoted, err := json.Marshal(string(raw)); err == nil {
+			return quoted
+		}
 		raw = strconv.AppendQuote(raw[:0], string(raw))
 	}
 	return raw
